@@ -777,6 +777,9 @@ func Main(args []string) int {
 			fmt.Println(string(vb))
 		}
 		return 0
+	case "dreplay":
+		DebugReplay(args[1])
+		return 0
 	case "selftest":
 		return SelfTest(args[1:])
 	case "list":
